@@ -421,7 +421,7 @@ $1
             !(old(vm).has_thread() && old(vm).stack().len() >= 3) ==> final(vm).polls() == old(vm).polls() && r is Err,
             old(vm).has_thread() && old(vm).stack().len() >= 3 ==> final(vm).has_thread() && final(vm).stack() =~= old(vm).stack().subrange(0, old(vm).stack().len() - 3),      //@ob C13.wd.CallDataCopy.operands_consumed_nothing_pushed
             final(vm).interval() == old(vm).interval() && final(vm).config == old(vm).config,
-//@loop 1
+//@loop 1 kind=while
                 invariant
                     polling_interval == old(vm).interval() && polling_interval >= 1 && vm.interval() == old(vm).interval(),
                     internal_offset < size_limit ==> internal_offset as nat == 32 * (count as nat),                 //@ob C13.wd.CallDataCopy.loop.offset_is_32_times_count
@@ -480,7 +480,7 @@ $1
             !(old(vm).has_thread() && old(vm).stack().len() >= 3) ==> final(vm).polls() == old(vm).polls() && r is Err,
             old(vm).has_thread() && old(vm).stack().len() >= 3 ==> final(vm).has_thread() && final(vm).stack() =~= old(vm).stack().subrange(0, old(vm).stack().len() - 3),      //@ob C13.wd.CodeCopy.operands_consumed_nothing_pushed
             final(vm).interval() == old(vm).interval() && final(vm).config == old(vm).config,
-//@loop 1
+//@loop 1 kind=while
                 invariant
                     polling_interval == old(vm).interval() && polling_interval >= 1 && vm.interval() == old(vm).interval(),
                     internal_offset < size_limit ==> internal_offset as nat == 32 * (count as nat),                 //@ob C13.wd.CodeCopy.loop.offset_is_32_times_count
@@ -539,7 +539,7 @@ $1
             !(old(vm).has_thread() && old(vm).stack().len() >= 4) ==> final(vm).polls() == old(vm).polls() && r is Err,
             old(vm).has_thread() && old(vm).stack().len() >= 4 ==> final(vm).has_thread() && final(vm).stack() =~= old(vm).stack().subrange(0, old(vm).stack().len() - 4),      //@ob C13.wd.ExtCodeCopy.operands_consumed_nothing_pushed
             final(vm).interval() == old(vm).interval() && final(vm).config == old(vm).config,
-//@loop 1
+//@loop 1 kind=while
                 invariant
                     polling_interval == old(vm).interval() && polling_interval >= 1 && vm.interval() == old(vm).interval(),
                     internal_offset < size_limit ==> internal_offset as nat == 32 * (count as nat),                 //@ob C13.wd.ExtCodeCopy.loop.offset_is_32_times_count
@@ -598,7 +598,7 @@ $1
             !(old(vm).has_thread() && old(vm).stack().len() >= 3) ==> final(vm).polls() == old(vm).polls() && r is Err,
             old(vm).has_thread() && old(vm).stack().len() >= 3 ==> final(vm).has_thread() && final(vm).stack() =~= old(vm).stack().subrange(0, old(vm).stack().len() - 3),      //@ob C13.wd.ReturnDataCopy.operands_consumed_nothing_pushed
             final(vm).interval() == old(vm).interval() && final(vm).config == old(vm).config,
-//@loop 1
+//@loop 1 kind=while
                 invariant
                     polling_interval == old(vm).interval() && polling_interval >= 1 && vm.interval() == old(vm).interval(),
                     internal_offset < size_limit ==> internal_offset as nat == 32 * (count as nat),                 //@ob C13.wd.ReturnDataCopy.loop.offset_is_32_times_count
@@ -666,7 +666,7 @@ $1
             // the helper touches memory only: the caller's operands are gone already, nothing is pushed here
             final(vm).has_thread() == old(vm).has_thread() && (old(vm).has_thread() ==> final(vm).stack() == old(vm).stack() && final(vm).ip() == old(vm).ip()),      //@ob C13.wd.store_return_data.nothing_pushed
             final(vm).interval() == old(vm).interval() && final(vm).config == old(vm).config,
-//@loop 1
+//@loop 1 kind=while
             invariant
                 polling_interval == old(vm).interval() && polling_interval >= 1 && vm.interval() == old(vm).interval(),
                 internal_offset < size_limit ==> internal_offset as nat == 32 * (count as nat),                 //@ob C13.wd.store_return_data.loop.offset_is_32_times_count
